@@ -1,6 +1,6 @@
 // C01: multiplication is exact for every operand shape, content and algorithm regime
 #include "../harness/gen.hpp"
-#include "gmp-mparam.h"
+#include "../harness/thresholds.hpp"
 using namespace eng; using namespace gen; using ref::Int;
 
 #ifndef MUL_FFT_FULL_THRESHOLD
